@@ -43,6 +43,7 @@ class ClassInfo:
 class ModuleInfo:
     def __init__(self, modname, repo_lib):
         self.modname = modname
+        self.repo_lib = repo_lib
         self.path = os.path.join(repo_lib, *modname.split(".")) + ".py"
         self.source = open(self.path, encoding="utf-8").read()
         self.tree = ast.parse(self.source, self.path)
@@ -62,8 +63,11 @@ class ModuleInfo:
             elif isinstance(st, ast.Assign) and len(st.targets) == 1 and isinstance(st.targets[0], ast.Name):
                 self.assigns[st.targets[0].id] = st.value
             elif isinstance(st, ast.ImportFrom) and st.module:
+                full = st.module
+                if st.level:
+                    full = ".".join(self.modname.split(".")[:-st.level] + [st.module])
                 for a in st.names:
-                    self.imports[a.asname or a.name] = (st.module, a.name)
+                    self.imports[a.asname or a.name] = (full, a.name)
             elif isinstance(st, ast.Import):
                 for a in st.names:
                     self.imports[a.asname or a.name.split(".")[0]] = (a.name, None)
@@ -105,6 +109,13 @@ class ModuleInfo:
                 if ci.bases == realbases:
                     return ci
             return self.classes[key][0]
+        # a class imported from another module of the library (cross-module inheritance, e.g. DebFile(ArFile))
+        imp = self.imports.get(name)
+        if imp is not None and imp[1] is not None and imp[0].split(".")[0] == self.modname.split(".")[0]:
+            try:
+                return load(imp[0], self.repo_lib).cls(imp[1])
+            except (OSError, SyntaxError):
+                return None
         return None
 
     def lookup(self, qualname):
